@@ -1,10 +1,10 @@
 package rules
 
 import (
-	"go/types"
-	"sort"
 	"fmt"
 	"go/token"
+	"go/types"
+	"sort"
 	"strings"
 
 	"golang.org/x/tools/go/ssa"
